@@ -178,6 +178,53 @@ def ref_heap(root, protocol=None):
     return heap, sp.names[id(root)], sp.unsupported
 
 
+def canon_graph(root, nodes):
+    """canonical text of a rooted abstract graph {name: (tup?, before names, after names)} (atoms: name not in
+    `nodes`): nodes renamed in depth-first order from the root (before children first, then after children)"""
+    order, seen = [], {}
+    stack = [root]
+    while stack:
+        x = stack.pop()
+        if x not in nodes or x in seen:
+            continue
+        seen[x] = len(order)
+        order.append(x)
+        _t, bs, as_ = nodes[x]
+        for c in reversed(list(bs) + list(as_)):
+            stack.append(c)
+    nm = lambda c: ("n%d" % seen[c]) if c in seen else "a"  # noqa: E731
+    return "root=%s " % nm(root) + ";".join(
+        "%s|%s|%s" % ("t" if nodes[x][0] else "n", ",".join(nm(c) for c in nodes[x][1]), ",".join(nm(c) for c in nodes[x][2]))
+        for x in order)
+
+
+def canon_of_heap_text(heap, root):
+    """RefSpy heap text -> canonical text"""
+    nodes = {}
+    for e in heap.split(";"):
+        i, d = e.split("=")
+        if d == "a":
+            continue
+        t, _k, bs, as_ = d.split(":")
+        nodes[int(i)] = (t == "t", [int(x) for x in bs.split(",") if x], [int(x) for x in as_.split(",") if x])
+    return canon_graph(root, nodes)
+
+
+def canon_of_model_answer(ans):
+    """answer of the driver's `pkload` -> canonical text"""
+    assert ans.startswith("ok root="), ans
+    head, _, body = ans[3:].partition(" ")
+    root = head[len("root="):]
+    nodes = {}
+    for e in body.split(";"):
+        if not e:
+            continue
+        r, d = e.split("=")
+        k, bs, as_ = d.split("|")
+        nodes["r" + r] = (k == "1", [x for x in bs.split(",") if x], [x for x in as_.split(",") if x])
+    return canon_graph(root, nodes)
+
+
 def skeleton(data):
     """memo skeleton of a pickle stream: MEMOIZE/PUT, GET i, POP, POP_MARK in stream order"""
     out = []
@@ -282,7 +329,7 @@ for line in props_pickle.describe(V, L, W):    # a second time: the copy stays u
 
 class C10(Check):
     id = "C10"
-    modules = ["EG.Props.C10"]
+    modules = ["EG.Props.C10", "EG.Props.C10Load"]
     assumptions = [
         "PARTIAL: the theorem is about the scheduling (queue machine = recursive pickler, for every heap and depth, in a flat loop); "
         "that CPython's unpickler applied to the recursive pickler's stream yields an isomorphic copy is pickle's / dill's and is trusted; "
@@ -380,6 +427,7 @@ class C10(Check):
                 line = "pkskel %d %s root=%s proto=%d" % (root_b, heap_b, sel, proto)
                 more.append(line)
                 mouts.append(real.step(line))
+                self.loader_tie(r, proto, heap_b, root_b)
             # layer 1 (white box, finer): the event trace of the real queue loop vs the Lean queue machine.
             # It needs the internals of _NonrecursivePickler; when a rewrite of those internals makes the
             # instrumentation impossible it is counted as unavailable — layers 1b, 2 and 3 remain.
@@ -416,6 +464,38 @@ class C10(Check):
                 self._viol.append((m, ["deep-chain %d" % n]))
 
     _viol = []
+
+    def loader_tie(self, r, proto, heap_b, root_b):
+        """SOFT tie of the abstract unpickler (EG.PickleLoad; theorem C10_load_roundtrip): the graph the Lean
+        machine builds from the queue machine's stream on the abstract heap of the ORIGINAL is compared, up to
+        renaming, with the abstract heap of the COPY that pickle really loads from nrpickler's bytes (both
+        abstractions come from the instrumented standard pickler).  Counts go into the evidence; never an alarm."""
+        import run as runmod
+        tie = self.stats10.setdefault("loader_tie", {"compared": 0, "agree": 0, "skipped": 0, "first_disagreement": None})
+        if len(heap_b) > 60000 or tie["compared"] >= 60:
+            tie["skipped"] += 1
+            return
+        try:
+            from edgegraph.output import nrpickler
+            with time_limit(20):
+                copy = pickle.loads(nrpickler.dumps(r, protocol=proto))
+                heap_c, root_c, unsup_c = ref_heap(copy, protocol=proto)
+            if unsup_c:
+                tie["skipped"] += 1
+                return
+            ans = runmod.run_model(["pkload %d %s" % (root_b, heap_b)])[0]
+            if not ans.startswith("ok root="):
+                tie["compared"] += 1
+                tie["first_disagreement"] = tie["first_disagreement"] or ("model: " + ans[:80])
+                return
+            tie["compared"] += 1
+            if canon_of_model_answer(ans) == canon_of_heap_text(heap_c, root_c):
+                tie["agree"] += 1
+            elif tie["first_disagreement"] is None:
+                tie["first_disagreement"] = "graph of %d nodes" % heap_b.count(";")
+        except Exception as exc:  # noqa: BLE001
+            tie["skipped"] += 1
+            tie.setdefault("errors", []).append(repr(exc)[:120])
 
     def extra_violations(self, stats):
         stats.extra["pickle_layers"] = getattr(self, "stats10", {})
